@@ -31,11 +31,15 @@ KF_PATH = os.path.join(env.VERIF, "known_findings.json")
 class Disc(object):
     """One discrepancy between what the oracle expects and what doctrans did."""
 
-    __slots__ = ("aspect", "where", "detail", "ptags")
+    __slots__ = ("aspect", "where", "detail", "ptags", "ctx", "owner")
 
-    def __init__(self, aspect, where="", detail="", ptags=()):
+    def __init__(self, aspect, where="", detail="", ptags=(), ctx=None, owner=None):
+        # properties whose findings may explain this discrepancy (hop of a chain); None = any loaded finding
+        self.owner = None if owner is None else tuple([owner] if isinstance(owner, str) else owner)
         self.aspect, self.where, self.detail = aspect, where, detail
         self.ptags = frozenset(ptags)
+        # tags of the sub-step this discrepancy belongs to (a hop of a chain); None = the tags of the whole case
+        self.ctx = None if ctx is None else frozenset(ctx)
 
     def to_json(self):
         return {
@@ -90,12 +94,13 @@ def raise_disc(exc, stage, ptags=()):
 
 
 # ----------------------------------------------------------------------------- known findings
-def load_findings(pid):
+def load_findings(pid, also=()):
     with open(KF_PATH) as f:
         data = json.load(f)
     res = []
+    pids = {pid} | set(also)
     for ent in data["findings"]:
-        if pid in ent["properties"]:
+        if pids & set(ent["properties"]):
             ent = dict(ent)
             ent["_sig"] = [re.compile(s) for s in ent.get("signature", [])]
             res.append(ent)
@@ -113,8 +118,12 @@ def _shape_ok(shape, tags):
 
 
 def attribute(disc, tags, findings):
+    if disc.ctx is not None:
+        tags = disc.ctx
     for ent in findings:
         if ent.get("status") != "open":
+            continue
+        if disc.owner is not None and not (set(disc.owner) & set(ent["properties"])):
             continue
         if not _shape_ok(ent.get("shape"), tags):
             continue
@@ -281,7 +290,7 @@ def _shard_main(args):
         import importlib
 
         mod = importlib.import_module("lib.props." + modname)
-        coll = Collector(mod, load_findings(mod.PID))
+        coll = Collector(mod, load_findings(mod.PID, getattr(mod, "ALSO_FINDINGS_OF", ())))
         run_standard_phases(mod, coll, tier, seed_value, shard, nshards)
         return ("ok", coll.dump())
     except BaseException:  # noqa
@@ -427,7 +436,7 @@ def main_check(modname, tier, replay=None, survey=False):
     import importlib
 
     mod = importlib.import_module("lib.props." + modname)
-    findings = load_findings(mod.PID)
+    findings = load_findings(mod.PID, getattr(mod, "ALSO_FINDINGS_OF", ()))
     seed_value = env.seed()
 
     if replay is not None:
@@ -455,7 +464,8 @@ def main_check(modname, tier, replay=None, survey=False):
     for fid in open_ids:
         if coll.finding_hits.get(fid):
             ent = next(f for f in findings if f["id"] == fid)
-            print("KNOWN-FINDING: property=%s %s: %s [%d cases this run]" % (mod.PID, fid, ent["what"], coll.finding_hits[fid]))
+            via = "" if mod.PID in ent["properties"] else " (finding of %s met on a hop)" % "/".join(ent["properties"])
+            print("KNOWN-FINDING: property=%s %s: %s%s [%d cases this run]" % (mod.PID, fid, ent["what"], via, coll.finding_hits[fid]))
 
     violations = []
     for key, b_ in coll.buckets.items():
